@@ -479,6 +479,7 @@ pub fn set_enobufs_mask(m: u32) {
         ATTS.clear();
     }
 }
+pub fn set_max_attempts(_n: usize) {}
 pub fn set_record_only(b: bool) {
     unsafe { RECORD_ONLY = b }
 }
